@@ -108,6 +108,15 @@ func ParseContractText(text, path, pkg string, extern bool) ([]*Block, error) {
 			word = body[:k]
 			rest = strings.TrimSpace(body[k:])
 		}
+		if word == "opaque" {
+			// "opaque <specfn> ...": in the functions of THIS package the named spec
+			// functions are not unfolded (uninterpreted symbols): facts about them
+			// come only from contracts proved where the definition is visible
+			blocks = append(blocks, &Block{Kind: "opaque", Pkg: pkg, Header: rest, Loops: map[int]*LoopSpec{}, Flags: map[string]string{}, File: path, Line: i + 1, Extern: extern})
+			cur = nil
+			last = nil
+			continue
+		}
 		if word == "use" {
 			blocks = append(blocks, &Block{Kind: "use", Pkg: pkg, Header: rest, Loops: map[int]*LoopSpec{}, Flags: map[string]string{}, File: path, Line: i + 1, Extern: extern})
 			cur = nil
